@@ -13,6 +13,7 @@ import (
 	"strings"
 	"time"
 
+	c10alt "verifharness/c10alt/c10types"
 	"verifharness/c10types"
 	"verifharness/internal/core"
 )
@@ -84,6 +85,11 @@ var registry = map[string]named{
 		fld("P", nm("image.Point")), fld("D", nm("time.Duration")), fld("In", nm("c10types.Inner")), fld("N", sc("int")))},
 	"c10types.Wrap": {RT: reflect.TypeOf(c10types.Wrap{}), Under: structT(
 		fld("B", nm("c10types.Box")), fld("U", nm("url.Values")), fld("Q", ptrT(nm("image.Point"))))},
+	// a second package called c10types (not used by the C10 stream: its generated programs do not contain it)
+	"c10alt.Tag":  {RT: reflect.TypeOf(c10alt.Tag{}), Under: structT(fld("N", sc("int")), fld("S", sc("string")))},
+	"c10alt.Unit": {RT: reflect.TypeOf(c10alt.Unit(0)), Under: sc("int")},
+	"c10alt.Frame": {RT: reflect.TypeOf(c10alt.Frame{}), Under: structT(fld("R", nm("image.Rectangle")), fld("N", sc("int")))},
+	"image.Rectangle": {RT: reflect.TypeOf(image.Rectangle{}), Under: structT(fld("Min", nm("image.Point")), fld("Max", nm("image.Point")))},
 	// types from other packages
 	"time.Duration": {RT: reflect.TypeOf(time.Duration(0)), Under: sc("int64")},
 	"time.Month":    {RT: reflect.TypeOf(time.Month(0)), Under: sc("int")},
